@@ -89,6 +89,31 @@ def cases_for(prop, defs, structs, tier, rng, sizes, strlens, salts=(0,)):
     return scen
 
 
+def with_rejected_interludes(prop, defs, scen):
+    """a rejected type that nests the same leaf types as the accepted ones (at lower ids than its unsupported
+    part) is tried in the middle of the run; afterwards the base case of every accepted type is run again"""
+    bad = {"id": 2, "key": "2", "req": "default", "t": {"k": "i32", "ptr": False, "gotype": "uint32"}, "nocopy": False,
+           "name": list(b"F2"), "rawtag": 'frugal:"2,default"', "opaque": True}
+    defs["ZBadInner"] = U.struct([U.field(1, "default", U.T("i32")), bad])
+    defs["ZBadShare"] = U.struct([U.field(0, "optional", U.ST("Leaf", True)), U.field(1, "optional", U.ST("LeafReq", True)),
+                                  U.field(2, "optional", U.ST("Defaults", True)), U.field(3, "optional", U.ST("LeafUnk", True)),
+                                  U.field(4, "optional", U.ST("Fix", True)), U.field(5, "optional", U.ST("Rec", True)),
+                                  U.field(9, "default", U.ST("ZBadInner", True))])
+    defs["ZBadInner"]["invalid"] = True
+    defs["ZBadShare"]["invalid"] = True
+    rej = {"sid": "%s-rejected-interlude" % prop, "prop": prop, "vals": [], "tags": [], "dkey": "rejected-interlude",
+           "steps": [{"op": "reject", "ty": "ZBadShare", "entry": e, "arg": "ptr", "class": "interlude", "repeat": 1} for e in ("encode", "decode", "size")]}
+    again = []
+    for sc in scen:
+        if sc["sid"].endswith("-base-0"):
+            c = dict(sc)
+            c["sid"] = sc["sid"] + "-again"
+            c["dkey"] = c["sid"]
+            again.append(c)
+    half = len(scen) // 2
+    return scen[:half] + [rej] + again + scen[half:] + [dict(rej, sid=rej["sid"] + "-2")] + [dict(a, sid=a["sid"] + "2", dkey=a["sid"] + "2") for a in again]
+
+
 def random_cases(prop, defs, tier, rng, n):
     scen = []
     names = sorted(defs.keys())
@@ -115,8 +140,10 @@ def run(prop, tier, seed, work):
     res.tlc_transitions += st.get("generated", 0)
     res.extra["spec_selfcheck"] = {"module": "spec/CodecMC.tla", "theorems": ["SizeIsLen", "ParseEnc", "RoundTrip", "OrderFree", "PrefixBad", "TrailFree"],
                                    "cases": st.get("distinct", 0), "result": "all hold"}
-    batches.append(Batch("fields", uf, cases_for(prop, uf, sorted(uf.keys()), tier, rng, sizes, strlens,
-                                                 salts=(0,) if quick else (0, 1, 2))))
+    fcases = cases_for(prop, uf, sorted(uf.keys()), tier, rng, sizes, strlens, salts=(0,) if quick else (0, 1, 2))
+    if prop == "C01":
+        fcases = with_rejected_interludes(prop, uf, fcases)
+    batches.append(Batch("fields", uf, fcases))
     um = U.merge(U.universe_maps(), U.universe_lists())
     msizes = [0, 1, 2, 9] if quick else [0, 1, 2, 8, 9, 14, 28, 110]
     tops = [s for s in sorted(um.keys()) if not s.startswith(("Leaf_", "Fix_"))]   # private leaves: nested use only
@@ -125,5 +152,48 @@ def run(prop, tier, seed, work):
     for i in range(nrand):
         ur = U.rand_universe(rng, nstructs=10 if quick else 16)
         batches.append(Batch("random%d" % i, ur, random_cases(prop, ur, tier, rng, 150 if quick else 1200)))
-    suite.run_batches(res, work, batches)
+    if prop == "C16":
+        batches.extend(c16_extra(work, res, uf, rng, quick))
+    suite.run_batches(res, work, batches, want_props={prop, "C13"} if prop == "C01" else None)
     return suite.finish(res, RULES[prop], ASSUME)
+
+
+def c16_extra(work, res, uf, rng, quick):
+    """(a) small / large / small sequences with buffers sized by EncodedSize (no probing call in between):
+    re-encoding a value after a larger one of the same type must write the same bytes into the caller's buffer;
+    (b) DecodeObject on inputs that are not canonical (mutations of reference messages): the input stays untouched"""
+    import vlib
+    import checks_malformed as cm
+    scen = []
+    names = [s for s in sorted(uf.keys())]
+    for s in names:
+        vs = [v for (_, v) in U.struct_variants(s, uf, [0, 1, 9], [0, 1, 300])]
+        if len(vs) < 3:
+            continue
+        for i in range(0, min(len(vs) - 2, 10 if quick else 60)):
+            a, b = vs[i], vs[(i * 7 + 3) % len(vs)]
+            enc = lambda vi, extra: {"op": "encode", "ty": s, "v": vi, "buf": {"mode": "size", "n": 0, "extra": extra}}
+            steps = [enc(0, 0), enc(1, 0), enc(0, 0), enc(1, 16), enc(0, 16), {"op": "encode", "ty": s, "v": 0, "byval": True, "buf": {"mode": "size", "n": 0, "extra": 0}}]
+            sid = "C16-seq-%s-%d" % (s, i)
+            scen.append({"sid": sid, "prop": "C16", "vals": [a, b], "steps": steps, "tags": struct_tags(s, a, uf) + struct_tags(s, b, uf), "dkey": sid})
+    out = [Batch("sequences", uf, scen)]
+    ddefs = cm.decoder_universe()
+    dpath = vlib.write_defs(work, ddefs)
+    cases = []
+    for s in ("Sc", "Co", "St"):
+        v = U.base_value({"k": "struct", "ptr": False, "s": s}, ddefs, 2, 0, 1)
+        cases.append({"cid": s, "w": s, "val": v, "ord": "asc", "trail": [], "mut": "subst"})
+    msgs, st = vlib.gen_messages(work, dpath, cases)
+    res.tlc_states += st.get("distinct", 0)
+    res.tlc_transitions += st.get("generated", 0)
+    dscen = []
+    for c in cases:
+        ms = msgs[c["cid"]]
+        if quick and len(ms) > 1200:
+            ms = rng.sample(ms, 1200)
+        steps = [{"op": "decode", "ty": c["w"], "in": m, "dest": "fresh"} for m in ms]
+        for i in range(0, len(steps), 300):
+            sid = "C16-dec-%s-%d" % (c["cid"], i)
+            dscen.append({"sid": sid, "prop": "C16", "vals": [], "steps": steps[i:i + 300], "tags": [], "dkey": sid})
+    out.append(Batch("noncanonical-inputs", ddefs, dscen))
+    return out
